@@ -32,6 +32,10 @@ type c17Case struct {
 	ExecErrDot bool `json:"execErrDot,omitempty"`
 	// Prefix: characters placed in front of the human-readable part (before "age1" / "AGE-PLUGIN-")
 	Prefix string `json:"prefix,omitempty"`
+	// FlipCase: the whole string in the other case (a recipient string in upper case, an identity string in lower case)
+	FlipCase bool `json:"flipCase,omitempty"`
+	// BigFile (cli-R): the recipients file goes on for several kilobytes after the line, with other names in its text
+	BigFile bool `json:"bigFile,omitempty"`
 }
 
 var c17Valid = regexp.MustCompile(`^[A-Za-z0-9+._-]+$`)
@@ -70,7 +74,7 @@ func c17Setup(name string, installValid bool) (*c17Dirs, error) {
 		return nil, err
 	}
 	os.Remove(filepath.Join(d.d1, "age-plugin-placeholder"))
-	for _, n := range []string{name, strings.ToLower(name), strings.ToUpper(name), "demo"} {
+	for _, n := range []string{name, strings.ToLower(name), strings.ToUpper(name), "demo", "AGE1" + strings.ToUpper(name), "age-plugin-" + strings.ToLower(name), "evil", "vile", "ilev", "levi"} {
 		if n == "" {
 			continue
 		}
@@ -116,6 +120,15 @@ func c17Check(c c17Case, st *stats.Run) error {
 	if c.Prefix != "" {
 		valid = false
 	}
+	if c.FlipCase && (c.Position == "recipient" || c.Position == "identity") && strings.ToLower(str) != strings.ToUpper(str) {
+		// valid Bech32 in itself, but not the case these strings are written in
+		if c.Position == "recipient" {
+			str = strings.ToUpper(str)
+		} else {
+			str = strings.ToLower(str)
+		}
+		valid = false
+	}
 	class := "name-valid"
 	if !valid {
 		class = "name-invalid"
@@ -124,6 +137,9 @@ func c17Check(c c17Case, st *stats.Run) error {
 		}
 		if c.Prefix != "" {
 			class = "prefix-before-hrp"
+		}
+		if c.FlipCase {
+			class = "whole-string-in-other-case"
 		}
 	}
 	st.Case(bechOK, stats.HashJSON(c), "pos="+c.Position, class, fmt.Sprintf("dotPath=%v", c.DotPath), fmt.Sprintf("relPath=%v", c.RelPath != ""), fmt.Sprintf("path-switch=%v", c.Switch), fmt.Sprintf("godebug-execerrdot0=%v", c.ExecErrDot))
@@ -333,7 +349,15 @@ func c17CheckCLI(c c17Case, d *c17Dirs, str string, valid bool) error {
 	case "cli-r":
 		code, _, stderr = runCLI(d.cwd, env, nil, ageBin, "-r", str, "-o", "out.age", "in.txt")
 	case "cli-R":
-		os.WriteFile(filepath.Join(d.cwd, "recips.txt"), []byte("# recipients\n"+str+"\n"), 0o644)
+		content := "# recipients\n" + str + "\n"
+		if c.BigFile {
+			// the line is followed by 12 KiB of comments: whatever a line reader's buffer holds later, it is not this line
+			content = str + "\n"
+			for len(content) < 12000 {
+				content += "# " + strings.Repeat("evil", 15+len(content)%7) + "\n"
+			}
+		}
+		os.WriteFile(filepath.Join(d.cwd, "recips.txt"), []byte(content), 0o644)
 		code, _, stderr = runCLI(d.cwd, env, nil, ageBin, "-R", "recips.txt", "-o", "out.age", "in.txt")
 	case "cli-i":
 		os.WriteFile(filepath.Join(d.cwd, "key.txt"), []byte(str+"\n"), 0o600)
@@ -492,6 +516,7 @@ func TestC17(t *testing.T) {
 			c.DotPath, c.Switch = false, true
 		}
 		c.ExecErrDot = rapid.IntRange(0, 3).Draw(t, "execerrdot") == 0
+		c.FlipCase = c.Position != "bare" && rapid.IntRange(0, 5).Draw(t, "flipCase") == 0
 		if c.Position != "bare" && rapid.IntRange(0, 5).Draw(t, "prefixed") == 0 {
 			c.Prefix = rapid.SampledFrom([]string{"/tmp/x/", "x", "/", "../", "a-"}).Draw(t, "prefix")
 		}
@@ -516,6 +541,7 @@ func TestC17(t *testing.T) {
 		if c.Position != "cli-j" && rapid.IntRange(0, 5).Draw(t, "prefixed") == 0 {
 			c.Prefix = rapid.SampledFrom([]string{"/tmp/x/", "x", "../"}).Draw(t, "prefix")
 		}
+		c.BigFile = c.Position == "cli-R" && rapid.Bool().Draw(t, "bigFile")
 		c.DotPath = rapid.IntRange(0, 3).Draw(t, "dot") == 0
 		c.ExecErrDot = rapid.IntRange(0, 2).Draw(t, "execerrdot") == 0
 		return c
